@@ -160,6 +160,45 @@ def visualized_paths(ctx):
     return out
 
 
+FILLED_VIEW_SRC = """
+@tweezer
+def main(x: float, how: int):
+    z = grid.from_positions([x, x + 2.0], [0.0, 1.0])
+    f = filled.vacate(z, [(0, 0)])
+    action.set_loc(f)
+    action.turn_on(action.ALL, action.ALL)
+    action.move(filled.shift(f, 1.0, 0.5))
+    s = grid.shape(f)
+    if how == 0:
+        action.move(grid.sub_grid(f, [0], [0, 1]))
+    if how == 1:
+        action.move(f[0:2, 1])
+    if how == 2:
+        action.move(filled.repeat(f, 1, 2, 0.0, 5.0))
+    if how == 3:
+        action.move(grid.sub_grid(f, [1, 0], [0, 1]))
+    action.turn_off(action.ALL, action.ALL)
+"""
+
+
+def filled_views_after_use(ctx):
+    """a filled grid that has already been a waypoint (its shape has been read, its geometry cached) and THEN views / repetitions of it of
+    another shape as move targets: whatever tracing returns - and its reversal - is judged by counting coordinates, not by the grids' own
+    `shape` attribute"""
+    from bloqade.shuttle.codegen import taskgen as T
+    S = tweezer_prog.harness_spec()
+    m = kernels.define(FILLED_VIEW_SRC)["main"]
+    out = []
+    for how in (0, 1, 2, 3, 4):
+        st, r = tc.run_impl(m, (1.0, how), S)
+        ctx.hist("filled views after use", f"how={how}: {'a path' if st == 'ok' else 'no path'}")
+        if st == "ok":
+            rep = {"src": FILLED_VIEW_SRC, "args": repr((1.0, how))}
+            out.append(("traced/filled-view-after-use", dict(rep, which="traced"), list(r)))
+            out.append(("reversed/filled-view-after-use", dict(rep, which="reversed"), T.reverse_path(list(r))))
+    return out
+
+
 def shape_text(ap):
     out = []
     for a in ap:
@@ -185,7 +224,7 @@ def rendered_paths(ctx, corpus):
         segs = [a for a in tc.abstract_path(p) if a[0] == "W" and a[1]]
         if not segs:
             continue
-        nx, ny = segs[0][1][0].shape
+        nx, ny = tc.site_shape(segs[0][1][0])
         before = shape_text(tc.abstract_path(p))
         try:
             rnd.render_path(path_d.Path(ilist.IList(range(nx)), ilist.IList(range(ny)), p))
@@ -214,6 +253,7 @@ def run(ctx):
     corpus += [("library:" + n, {"kernel": n, "args": a}, r) for n, a, r in library_paths(ctx)]
     corpus += [("reused-tracer", rep, r) for rep, r in reused_tracer_paths(ctx, ctx.pick(120, 1200))]
     rendered_paths(ctx, corpus[:ctx.pick(150, 1500)])
+    corpus += [(k, rep, r) for k, rep, r in filled_views_after_use(ctx) if k.startswith("traced/")]
     played = played_paths(ctx, ctx.pick(60, 600)) + visualized_paths(ctx)
     ctx.count("played paths (Path.path of path.Play events, three routes, forward and reversed)", len(played))
     cases = []
@@ -311,7 +351,7 @@ def replay(data):
         from bloqade.shuttle.dialects import path as path_d
         from vcommon import stubs
         segs = [a for a in tc.abstract_path(r) if a[0] == "W" and a[1]]
-        nx, ny = segs[0][1][0].shape
+        nx, ny = tc.site_shape(segs[0][1][0])
         before = shape_text(tc.abstract_path(r))
         stubs.matplotlib_renderer().render_path(path_d.Path(ilist.IList(range(nx)), ilist.IList(range(ny)), r))
         after = shape_text(tc.abstract_path(r))
